@@ -3,6 +3,7 @@ import concurrent.futures, json, os, random, shutil, time
 from . import common as C
 from . import pie as P
 from . import oracles as O
+from . import small as SM
 
 CONFIG = {
     'C01': dict(streams=[('td_wf', 1040), ('td_coarse', 360)], keep='om'),
@@ -15,8 +16,8 @@ CONFIG = {
     'C08': dict(streams=[('td_wf', 640), ('bu_wf', 400), ('multi', 80)], keep='od'),
     'C09': dict(streams=[('td_coarse', 880), ('bu_wf', 320)], keep='dv'),
     'C16': dict(streams=[('td_wf', 240), ('bu_wf', 240), ('mixed_wf', 120)], keep='oevdm', two_process=True),
-    'C17': dict(streams=[('td_wf', 480), ('bu_wf', 480), ('fail_wf', 240), ('panic', 160)], keep='v'),
-    'C18': dict(streams=[('fail_wf', 1280)], keep='eov'),
+    'C17': dict(streams=[('td_wf', 480), ('bu_wf', 480), ('fail_wf', 240), ('panic', 160), ('failstamp', 160)], keep='v', extra='tracker'),
+    'C18': dict(streams=[('fail_wf', 800), ('fail_bu', 500), ('fail_mixed', 300)], keep='eov'),
     'C19': dict(streams=[('panic', 880), ('inj_hidden', 200), ('inj_overlap', 200), ('inj_cycle', 200)], keep='od'),
     'C20': dict(streams=[('td_wf', 480), ('bu_wf', 240), ('roles', 640)], keep='o'),
 }
@@ -35,11 +36,12 @@ def make_case(rng, stream, big=False):
         steps = [['E', '0', '1'], ['S', '1', 'q', '0'], ['E', '0', '2'], ['S', '1', 'q', '0'], ['S', '1', 'q', '0']]
         return p, steps, norm_meta({}, 'td')
     exact = stream == 'td_exact'
-    fail = stream == 'fail_wf'
+    fail = stream in ('fail_wf', 'failstamp', 'fail_bu', 'fail_mixed')
     coarse = stream == 'td_coarse'
     p = P.gen_wf_program(rng, nt, exact_only=exact, allow_fail=fail, coarse_writers=coarse)
     mode = 'td'
-    if stream == 'bu_wf': mode = 'bu'
+    if stream in ('bu_wf', 'fail_bu'): mode = 'bu'
+    if stream == 'fail_mixed': mode = 'mixed'
     if stream == 'mixed_wf': mode = 'mixed'
     if stream == 'inj_hidden':
         f = rng.choice([P.inject_hidden_read, P.inject_hidden_read, P.inject_source_write, P.inject_self_rw])
@@ -51,8 +53,21 @@ def make_case(rng, stream, big=False):
         p = P.inject_back_require(rng, p); mode = rng.choice(['td', 'td', 'mixed'])
     elif stream == 'panic':
         p = P.inject_panic(rng, p); mode = rng.choice(['td', 'td', 'td', 'mixed'])
+    if stream == 'failstamp':
+        p.kind = 'failstamp'          # stamping errors are returned to the task: outside the C01 class
+        p.tasks = {t: swap_checker(c, 4, 5) for t, c in p.tasks.items()}
+        p.generated = {g: (gt, 5 if wc == 4 else wc) for g, (gt, wc) in p.generated.items()}
     steps, meta = P.gen_history(rng, p, ns, mode=mode, probes=True)
     return p, steps, norm_meta(meta, mode)
+
+
+def swap_checker(c, a, b):
+    k = c[0]
+    if k in ('R', 'X'): return (k, c[1], b if c[2] == a else c[2], swap_checker(c[3], a, b))
+    if k == 'Q': return (k, c[1], c[2], swap_checker(c[3], a, b))
+    if k in ('W', 'N'): return (k, c[1], b if c[2] == a else c[2], c[3], swap_checker(c[4], a, b))
+    if k == 'I': return (k, c[1], swap_checker(c[2], a, b), swap_checker(c[3], a, b))
+    return c
 
 
 def norm_meta(meta, mode):
@@ -162,6 +177,8 @@ def run(prop, tier, seed, replay=None):
     work = os.path.join(C.CACHE, 'run', '%s-%s-%d' % (prop, tier, os.getpid()))
     os.makedirs(work, exist_ok=True)
     toks_list = [c[3] for c in cases]
+    if replay and cases[0][4] == 'tracker_probe':
+        toks_list = []
     impl, model, crashes = run_cases(exe_impl, exe_model, toks_list, work)
     impl2 = None
     if cfg.get('two_process'):
@@ -172,6 +189,8 @@ def run(prop, tier, seed, replay=None):
     dist = {'sessions': 0, 'executions': 0, 'aborts': {}, 'reused_sessions': 0, 'bottom_up_builds': 0, 'checker_errors': 0, 'streams': {}}
     nontrivial = set()
     for i, (prog, steps, meta, toks, stream) in enumerate(cases):
+        if stream == 'tracker_probe':
+            continue
         if impl[i] is None:
             findings.append(('crash', 'the implementation harness crashed or did not terminate on this case (stack overflow / abort)', i))
             continue
@@ -205,6 +224,32 @@ def run(prop, tier, seed, replay=None):
             if a != b:
                 first = next((j for j, (x, y) in enumerate(zip(a, b)) if x != y), min(len(a), len(b)))
                 divergences.append((i, first, a[first] if first < len(a) else None, b[first] if first < len(b) else None))
+    if cfg.get('extra') == 'tracker' and (not replay or cases[0][4] == 'tracker_probe'):
+        tcases = [c[3] for c in cases] if replay else [SM.ALL_KINDS_CASE] + [SM.gen_tracker_case(rng) for _ in range(600 if tier == 'quick' else 20000)]
+        exe_probe, pout = C.build_harness('misc_probe')
+        f = os.path.join(work, 'tracker.txt')
+        open(f, 'w').write('\n'.join(' '.join(c) for c in tcases) + '\n')
+        rc1, o1, _ = C.sh([exe_probe, 'tracker', f], timeout=3000) if exe_probe else (1, '', 0)
+        ic = split_all(o1.split('\n'))
+        mc = None
+        if exe_model:
+            rc2, o2, _ = C.sh([exe_model, 'tracker', f], timeout=3000)
+            mc = split_all(o2.split('\n'))
+        base = len(cases) if not replay else 0
+        for j, toks in enumerate(tcases):
+            if not replay:
+                cases.append((None, None, {}, toks, 'tracker_probe'))
+            if j >= len(ic):
+                findings.append(('crash', 'tracker probe crashed on this event sequence', base + j)); continue
+            msg = SM.tracker_oracle(toks, ic[j])
+            if msg:
+                import re as _re
+                findings.append(('tracker-' + _re.sub(r'[0-9]+', 'N', msg.split(':')[0].split(' (')[0])[:40], msg, base + j))
+            if mc is not None and (j >= len(mc) or mc[j] != ic[j]):
+                a, b_ = ic[j], (mc[j] if j < len(mc) else [])
+                first = next((k for k, (x, y) in enumerate(zip(a, b_)) if x != y), min(len(a), len(b_)))
+                divergences.append((base + j, first, a[first] if first < len(a) else None, b_[first] if first < len(b_) else None))
+            if len(toks) > 12: nontrivial.add(' '.join(toks))
     shutil.rmtree(work, ignore_errors=True)
 
     # ---- verdict
@@ -216,7 +261,7 @@ def run(prop, tier, seed, replay=None):
     for sig, msg, i in findings:
         if sig not in by_sig or len(cases[i][3]) < len(cases[by_sig[sig][1]][3]):
             by_sig[sig] = (msg, i)
-    for sig, (msg, i) in sorted(by_sig.items()):
+    for sig, (msg, i) in sorted(by_sig.items())[:4]:
         kf = next((k for k in known if k['signature'] == sig), None)
         if kf:
             print('KNOWN-FINDING: property=%s %s' % (prop, kf['text']))
@@ -319,7 +364,7 @@ def shrink_case(exe_impl, prog, steps, meta, prop, sig, msg):
         sessions = P.parse_obs(['C 0'] + cs[0])[0]
         m2 = {'mode': meta.get('mode'),
               'repeat_steps': set(remapidx[x] for x in meta.get('repeat_steps', ()) if x in remapidx),
-              'probe_steps': {remapidx[k]: remapidx[v] for k, v in meta.get('probe_steps', {}).items() if k in remapidx and v in remapidx and remapidx[k] == remapidx[v] + 1}}
+              'probe_steps': {remapidx[k]: remapidx[v] for k, v in meta.get('probe_steps', {}).items() if k in remapidx and v in remapidx and remapidx[k] > remapidx[v] and all(st[j][0] == 'F' for j in range(remapidx[v] + 1, remapidx[k]))}}
         for (pr, sg, m) in O.run_oracles(prog, m2, sessions):
             pr2, sg2 = remap(prog, pr, sg)
             if pr2 == prop and sg2 == sig:
